@@ -216,6 +216,11 @@ class PathResolver:
     def e_IfExp(self, e: ast.IfExp) -> Term:
         return ('ifexp', self.ev(e.test), self.ev(e.body), self.ev(e.orelse))
 
+    def e_NamedExpr(self, e: ast.NamedExpr) -> Term:
+        v = self.ev(e.value)
+        self.bind(e.target, v, e)
+        return v
+
     def e_Starred(self, e: ast.Starred) -> Term:
         return ('star', self.ev(e.value))
 
@@ -285,7 +290,10 @@ class PathResolver:
                 self.stmt(ev.node)      # type: ignore[arg-type]
             elif ev.kind == 'cond':
                 sp.last_node = ev.node
-                sp.actions.append(Action('cond', self.ev(ev.node), bool(ev.val), ev.node))
+                ct, cv = self.ev(ev.node), bool(ev.val)
+                while isinstance(ct, tuple) and len(ct) == 3 and ct[0] == 'op' and ct[1] == 'Not':     # a negation bound to a local first
+                    ct, cv = ct[2][0], not cv
+                sp.actions.append(Action('cond', ct, cv, ev.node))
             elif ev.kind == 'iter':
                 st = ev.node
                 n = self.iters.get(id(st), 0)
@@ -326,6 +334,8 @@ def sym_paths(fn: T.Union[ast.FunctionDef, ast.AsyncFunctionDef], *, body: T.Opt
     stmts = body if body is not None else fn.body
     if helpers:
         stmts = inline_helpers(list(stmts), {k: v for k, v in helpers.items() if v is not fn})
+    if any(isinstance(n, ast.IfExp) for s_ in stmts for n in ast.walk(s_)):
+        stmts = desugar_conditionals(list(stmts))
     if mod is not None and any(isinstance(n, ast.For) for s_ in stmts for n in ast.walk(s_)):
         def lookup(name: str) -> T.Optional[ast.AST]:
             try:
@@ -571,4 +581,92 @@ def unroll_table_loops(body: T.List[ast.stmt], lookup: T.Callable[[str], T.Optio
                         out.append(s2)
                 continue
         out.append(new)
+    return out
+
+
+# ---------------------------------------------------------------------------
+# source normal form applied before path enumeration (pass 7, D.4): conditional expressions become if/else statements
+# ---------------------------------------------------------------------------
+
+def _pure_test(e: ast.AST) -> bool:
+    return not any(isinstance(n, (ast.Call, ast.Await, ast.Yield, ast.YieldFrom, ast.NamedExpr)) for n in ast.walk(e)) or \
+        all(isinstance(n.func, ast.Name) and n.func.id in ('isinstance', 'len', 'bool') for n in ast.walk(e) if isinstance(n, ast.Call))
+
+
+class _ReplaceNode(ast.NodeTransformer):
+    def __init__(self, target: ast.AST, repl: ast.AST):
+        self.target, self.repl = target, repl
+
+    def generic_visit(self, node: ast.AST) -> ast.AST:
+        if node is self.target:
+            return self.repl
+        return super().generic_visit(node)
+
+    def visit(self, node: ast.AST) -> ast.AST:
+        if node is self.target:
+            return self.repl
+        return super().visit(node)
+
+
+def _first_ifexp(st: ast.stmt) -> T.Optional[ast.IfExp]:
+    """The conditional expression of a simple statement that can be lifted: its test is pure and nothing with an effect is evaluated before it."""
+    if not isinstance(st, (ast.Assign, ast.AnnAssign, ast.Return, ast.Expr, ast.AugAssign)):
+        return None
+    value = st.value
+    if value is None:
+        return None
+    if isinstance(value, ast.IfExp) and _pure_test(value.test):
+        return value
+    # an argument of the outermost call (first effectful thing evaluated after the receiver)
+    if isinstance(value, ast.Call):
+        for a in value.args:
+            if isinstance(a, ast.IfExp) and _pure_test(a.test):
+                before = value.args[:value.args.index(a)]
+                if all(not any(isinstance(n, ast.Call) for n in ast.walk(b)) for b in before) and \
+                        not any(isinstance(n, ast.Call) for n in ast.walk(value.func)):
+                    return a
+                return None
+        if isinstance(value.func, ast.IfExp) and _pure_test(value.func.test):
+            return value.func
+    return None
+
+
+def desugar_conditionals(body: T.List[ast.stmt]) -> T.List[ast.stmt]:
+    """`x = a if c else b` / `return f(a if c else b)` / `(f if c else g)(x)` -> `if c: <stmt with a> else: <stmt with b>` (c pure)."""
+    out: T.List[ast.stmt] = []
+    for st in body:
+        new: ast.stmt = st
+        if isinstance(st, (ast.If, ast.For, ast.AsyncFor, ast.While, ast.With, ast.AsyncWith, ast.Try)):
+            new = _copy.copy(st)
+            for field in ('body', 'orelse', 'finalbody'):
+                sub = getattr(st, field, None)
+                if isinstance(sub, list) and sub and isinstance(sub[0], ast.stmt):
+                    setattr(new, field, desugar_conditionals(sub))
+            if isinstance(st, ast.Try):
+                hs = []
+                for h in st.handlers:
+                    h2 = _copy.copy(h)
+                    h2.body = desugar_conditionals(h.body)
+                    hs.append(h2)
+                new.handlers = hs          # type: ignore[attr-defined]
+            out.append(new)
+            continue
+        ie = _first_ifexp(st)
+        if ie is None:
+            out.append(st)
+            continue
+        s1, s2 = _copy.deepcopy(st), _copy.deepcopy(st)
+        # locate the copied IfExp by position in a parallel walk
+        def swap(stmt: ast.stmt, orig: ast.stmt, pick: str) -> ast.stmt:
+            pairs = list(zip(ast.walk(orig), ast.walk(stmt)))
+            for o, c in pairs:
+                if o is ie:
+                    return _ReplaceNode(c, getattr(c, pick)).visit(stmt)
+            return stmt
+        s1 = swap(s1, st, 'body')
+        s2 = swap(s2, st, 'orelse')
+        node = ast.If(test=_copy.deepcopy(ie.test), body=desugar_conditionals([s1]), orelse=desugar_conditionals([s2]))
+        ast.copy_location(node, st)
+        ast.fix_missing_locations(node)
+        out.append(node)
     return out
